@@ -5,6 +5,8 @@ for conf in sorted(glob.glob('/tmp/confirm/C*-[a-j].json')):
     name = os.path.basename(conf)[:-5]
     pid, x = name.split('-')
     src = f"/tmp/seed{ {'a':'','b':'','c':'2','d':'2','e':'3','f':'3','g':'4','h':'4','i':'5','j':'5'}[x] }-{pid}/{x}"
+    if not os.path.isdir(src):
+        src = f"/tmp/seed6-{pid}/{x}"
     c = json.load(open(conf))
     ok = c.get('applies') and c.get('suite_pass_fail') == '246 0' and c.get('demo_exit_with_patch') not in (0, None) and c.get('demo_exit_without_patch') == 0
     if not ok:
